@@ -112,6 +112,15 @@ prop("C05", True,
      "interprocedural type provenance of interface values + structural JSON-safety + shape rules over go/ssa",
      "DESIGN.md §2 C05")
 
+prop("C07", True,
+     "Static necessary-condition checks for all line-length sequences/rotation moments/faults: the single consumer of the unbuffered request channel is started on every successful New and returns only under the channel-closed "
+     "outcome (senders cannot block forever); the os.Rename target is dominated by a failed existence probe of that very name (rotation never overwrites); every file write is reachable only through a successful stat or reopen(); "
+     "every advance p = p[a:] of the batch equals the length of a prefix handed to the file (or one more, when that byte is a newline index found by (Last)IndexByte and known >= 0 on every phi edge) – no byte is dropped; every prefix "
+     "written before a rotation ends at a line boundary. The exactly-once/size-bound arithmetic over all alignments and flush timing are NOT decided (run-time quantities).",
+     "Trusts os.Rename/Lstat/File.Write; one writer goroutine per FileBackend.",
+     "consumer-exit rule + dominating-condition extraction on phi edges + guarded reachability + slice-advance provenance over go/ssa",
+     "DESIGN.md §2 C07")
+
 PENDING = {
  "C01": "check not built yet in this revision (design: DESIGN.md §2 C01)",
 }
